@@ -1205,6 +1205,12 @@ func (c *Context) quantize(d, v *Decimal, exp int32) Condition {
 			}
 		} else {
 			nc := c.WithPrecision(uint32(p))
+			// The intermediate value below lives at exponent -diff, not at
+			// exp, so the context's exponent limits do not apply to it (they
+			// would make it subnormal when p == 0 and MinExponent == 0).
+			// Callers check the final exponent against the context.
+			nc.MinExponent = MinExponent
+			nc.MaxExponent = MaxExponent
 
 			// The idea here is that the resulting d.Exponent after rounding will be 0. We
 			// have a number of, say, 5 digits, but p (our precision) above is set at, say,
